@@ -10,6 +10,7 @@
    generated tables, so a dropped case label / visitor method / check site breaks exactly that instance. -/
 import UtapModel.Lemmas.Effect
 import UtapModel.Lemmas.EffectSub
+import UtapModel.Lemmas.TypeWalk
 import UtapModel.Gen.EffectGen
 namespace UtapModel.C11
 open UtapModel UtapModel.Effect UtapModel.EffectGen
@@ -191,5 +192,35 @@ example : bodiesExtFree genCfg demoPure = true ∧
 
 /-- and the twin is not rejected by these checks: well-typed, computable, write-free passes every context -/
 theorem C11_contexts_twin : ∀ c ∈ Context.all, c.rejects genCfg true true false = false := by decide
+
+/-! ## array sizes: every dimension is a context of its own (Model/TypeWalk.lean) -/
+
+/-- `T z[s₁][s₂]…[sₙ]` -/
+def arrayOf (base : TypeWalk.WTy) : List TypeWalk.WTy → TypeWalk.WTy
+  | [] => base
+  | s :: ss => .array s (arrayOf base ss)
+
+theorem arrayOf_wellKinded (base : TypeWalk.WTy) (hb : base.wellKinded = true) :
+    ∀ sizes : List TypeWalk.WTy, (∀ s ∈ sizes, s.wellKinded = true) → (arrayOf base sizes).wellKinded = true
+  | [], _ => hb
+  | s :: ss, h => by
+    simp only [arrayOf, TypeWalk.WTy.wellKinded, Bool.and_eq_true]
+    exact ⟨h s (by simp), arrayOf_wellKinded base hb ss (fun t ht => h t (by simp [ht]))⟩
+
+theorem arrayOf_exprs (base : TypeWalk.WTy) : ∀ sizes : List TypeWalk.WTy, ∀ s ∈ sizes, ∀ x ∈ s.exprs, x ∈ (arrayOf base sizes).exprs
+  | [], s, hs, _, _ => by simp at hs
+  | t :: ts, s, hs, x, hx => by
+    simp only [arrayOf, TypeWalk.WTy.exprs, List.mem_append]
+    rcases List.mem_cons.mp hs with h | h
+    · exact Or.inl (h ▸ hx)
+    · exact Or.inr (arrayOf_exprs base ts s h x hx)
+
+/-- The size expression of EVERY dimension of an array declaration -- first, inner, last, whatever the element type is (a
+    typedef name of a further array type included) -- is handed to the checks that reject a size whose evaluation can write
+    (`C11_computable_contexts_no_write`): today's `checkType` leaves no dimension out. -/
+theorem C11_every_dimension_checked (base : TypeWalk.WTy) (hb : base.wellKinded = true) (sizes : List TypeWalk.WTy)
+    (hs : ∀ s ∈ sizes, s.wellKinded = true) : ∀ s ∈ sizes, ∀ x ∈ s.exprs, x ∈ TypeWalk.visits genWalk (arrayOf base sizes) :=
+  fun s hin x hx => TypeWalk.visits_complete genWalk (by decide) (arrayOf base sizes) (arrayOf_wellKinded base hb sizes hs) x
+    (arrayOf_exprs base sizes s hin x hx)
 
 end UtapModel.C11
